@@ -156,9 +156,14 @@ def run_case(case):
         runs.append((np.int64(l), False, False))
         runs.append((np.int64(l), True, False))
 
-    def one(limit, header_only, maxmins, canary=False):
-        def path(ctx):
-            assume_geometry(ctx, ref)
+    # the reader after use: concrete (dyadic) geometry, so that point queries inside boxes and on box faces are ordinary calls
+    cref = families.make_ref('p', mesh, case['fields'], layout=case['layout'], geom=case.get('geom', 1), ref_line_extra=case.get('ref_extra', 0),
+                             level_prefix=case.get('level_prefix', 'Level_'))
+
+    def one(limit, header_only, maxmins, canary=False, history=False):
+        def path(ctx, ref=cref if history else ref):
+            if not history:
+                assume_geometry(ctx, ref)
             fs = SymFS()
             ref.write_symfs(fs, '/work/plt')
             if header_only:
@@ -183,6 +188,10 @@ def run_case(case):
                     # twin: expect the time to be something else
                     num_eq(obl, pck.time, ref.time + 1, 'canary')
                     return obl
+                if history:
+                    from harness import replay_lib
+                    what += ' after box reads, iteration, point queries inside boxes and on box faces, and a comparison, on that object'
+                    replay_lib.use_reader(pck, ref.nlev if limit is None else limit + 1, ref.ndims, ref.boxes[0], ref.lo, ref.dx[0])
                 check_attrs(obl, pck, ref, limit, header_only, maxmins, what)
             return obl
         return core.explore(path, max_paths=16)
@@ -200,6 +209,13 @@ def run_case(case):
                 if sig not in viol:
                     viol[sig] = {'signature': sig, 'what': msg, 'args': [None if limit is None else int(limit), header_only, maxmins], 'model': obl.failed[0][1],
                                  'limit_type': 'np.int64' if isinstance(limit, np.integer) else None}
+    for limit in [None] + ([0] if ref.nlev > 1 else []):
+        results, exhaustive, stats = one(limit, False, True, history=True)
+        res.add_explore(results, exhaustive, stats)
+        for ctx, obl in results:
+            res.add_obl(obl)
+            if obl.failed and 'C02/history' not in viol:
+                viol['C02/history'] = {'signature': 'C02/history', 'what': obl.failed[0][0], 'args': [limit, False, True], 'model': obl.failed[0][1], 'limit_type': None, 'history': True}
     cres, _, _ = one(None, False, False, canary=True)
     res['canaries'] += 1
     if cres and cres[0][1].failed:
@@ -211,7 +227,7 @@ def run_case(case):
     for sig, v in viol.items():
         if not common.claim('C02', sig):
             continue
-        d, status, out = common.replay_portfolio(lambda: make_replay(ref, v))
+        d, status, out = common.replay_portfolio(lambda: make_replay(cref if v.get('history') else ref, v))
         v2 = {'signature': sig, 'what': v['what'], 'replay': d}
         if status == 'reproduced':
             res['violations'].append(v2)
@@ -240,13 +256,14 @@ def make_replay(ref, v):
     val.defaults.setdefault('time', 0.375)
     replay_lib.materialise_ref(ref, os.path.join(d, 'plt'), val)
     import json
-    exp = {'fields': ref.fields, 'ndims': ref.ndims, 'time': float(val(ref.time)), 'lo': [float(val(x)) for x in ref.lo],
-           'hi': [float(val(x)) for x in ref.hi], 'dx': [[float(val(x)) for x in lv] for lv in ref.dx],
+    V = lambda x: float(val(x)) if core.is_sym(x) else float(x)
+    exp = {'fields': ref.fields, 'ndims': ref.ndims, 'time': V(ref.time), 'lo': [V(x) for x in ref.lo],
+           'hi': [V(x) for x in ref.hi], 'dx': [[V(x) for x in lv] for lv in ref.dx],
            'ncell': [list(n) for n in ref.ncell], 'boxes': [[[list(a), list(b)] for a, b in lv] for lv in ref.boxes],
            'offsets': [[list(ref.offsets(l)[b]) for b in range(len(ref.boxes[l]))] for l in range(ref.nlev)],
-           'mins': [[[float(val(x)) for x in row] for row in lv] for lv in ref.mins],
-           'maxs': [[[float(val(x)) for x in row] for row in lv] for lv in ref.maxs]}
-    case = {'property': 'C02', 'handler': 'c02', 'signature': v['signature'], 'what': v['what'], 'args': v['args'], 'expected': exp, 'level_prefix': ref.level_prefix, 'limit_type': v.get('limit_type')}
+           'mins': [[[V(x) for x in row] for row in lv] for lv in ref.mins],
+           'maxs': [[[V(x) for x in row] for row in lv] for lv in ref.maxs]}
+    case = {'property': 'C02', 'handler': 'c02', 'signature': v['signature'], 'what': v['what'], 'args': v['args'], 'expected': exp, 'level_prefix': ref.level_prefix, 'limit_type': v.get('limit_type'), 'history': bool(v.get('history'))}
     with open(os.path.join(d, 'case.json'), 'w') as f:
         json.dump(case, f, indent=1)
     common.write_replay_stub(d)
